@@ -133,6 +133,10 @@ extern "C" void vf_thread_1() {
 #if OWNER0
     // FIFO scenarios: the owner may release at any time; requests 2 and 3 are ordered by the arrived2 hand-shake
     release<T1_REL>(own0);
+#ifdef REQ_AFTER_REL
+    // the releasing owner comes straight back as a requester
+    for (int r = 0; r < T1_ROUNDS; r++) round_<T1_ACQ, T1_REL>(1, r);
+#endif
 #else
     for (int r = 0; r < T1_ROUNDS; r++) round_<T1_ACQ, T1_REL>(1, r);
 #endif
@@ -164,7 +168,7 @@ static void check_thread(int t, int acq, int rounds) {
 }
 
 extern "C" void vf_check() {
-#if !OWNER0
+#if !OWNER0 || defined(REQ_AFTER_REL)
     check_thread(1, T1_ACQ, T1_ROUNDS);
 #endif
     check_thread(2, T2_ACQ, T2_ROUNDS);
